@@ -1033,6 +1033,20 @@ def _poly1d(ip, coeffs, *a, **k):
 TABLE["np.poly1d"] = Builtin("np.poly1d", _poly1d)
 
 
+@model("np.all")
+def _np_all(ip, v, *a, **k):
+  if isinstance(v, (SBool, bool)):
+    return v
+  return _all(ip, v)
+
+
+@model("np.any")
+def _np_any(ip, v, *a, **k):
+  if isinstance(v, (SBool, bool)):
+    return v
+  return _any(ip, v)
+
+
 @model("np.squeeze")
 def _np_squeeze(ip, v, axis=None):
   if isinstance(v, SNum) and isinstance(v.tag, dict) and "shape" in v.tag:
